@@ -22,6 +22,7 @@ import (
 	"path/filepath"
 	"runtime"
 	"strings"
+	"sync"
 	"testing"
 	"time"
 
@@ -38,8 +39,8 @@ import (
 	v2 "github.com/nuts-foundation/nuts-node/network/transport/v2"
 	"github.com/nuts-foundation/nuts-node/vdr/resolver"
 	"github.com/sirupsen/logrus"
-	"google.golang.org/protobuf/proto"
 	grpcLib "google.golang.org/grpc"
+	"google.golang.org/protobuf/proto"
 
 	"verifharness/txforge"
 )
@@ -139,8 +140,12 @@ type capConn struct {
 	peer transport.Peer
 }
 
+var capMu sync.Mutex // Send may be called from a retry goroutine of the code under test
+
 func (c *capConn) Send(_ grpc.Protocol, envelope interface{}, _ bool) error {
+	capMu.Lock()
 	c.h.sent = append(c.h.sent, envelope.(*v2.Envelope))
+	capMu.Unlock()
 	return nil
 }
 func (c *capConn) Peer() transport.Peer  { return c.peer }
@@ -529,8 +534,8 @@ func (s *svcResolver) ResolveEx(ssi.URI, int, int, map[string]*did.Document) (di
 type fakeConnCap struct{ *capConn }
 type capList struct{ c *fakeConnCap }
 
-func (l *capList) Get(...grpc.Predicate) grpc.Connection        { return l.c }
-func (l *capList) All() []grpc.Connection                       { return []grpc.Connection{l.c} }
+func (l *capList) Get(...grpc.Predicate) grpc.Connection           { return l.c }
+func (l *capList) All() []grpc.Connection                          { return []grpc.Connection{l.c} }
 func (l *capList) AllMatching(...grpc.Predicate) []grpc.Connection { return []grpc.Connection{l.c} }
 
 func TestPriv(t *testing.T) {
